@@ -6,7 +6,7 @@
 //   (3) TabRewriter (custom keys) replaces tabs with the width it is given
 // format_state renders message / prefix / literals through expanded() and custom keys through TabRewriter(self.tab_width).
 // @file-encodes state::TabExpandedString::new, state::TabExpandedString::expanded, state::TabExpandedString::set_tab_width, state::BarState::set_tab_width, state::BarState::set_style, state::BarState::finish_using_style (message path), style::ProgressStyle::set_tab_width, style::Template::set_tab_width, style::TabRewriter::write_str
-// @file-assumes texts and tab widths are concrete per harness instance in layers (1) and (3) (string replacement on symbolic content allocates strings of symbolic size); in layer (2) the operation order and the tab widths are symbolic, the texts come from a table; set_message / set_prefix are performed as ProgressBar does (TabExpandedString::new(text, state.tab_width))
+// @file-assumes in layer (1) str::replace / str::repeat are replaced by byte-wise models for the TAB pattern (validated natively against std by engine/validate_stubs.py; std's CharSearcher/memchr makes CBMC unwind thousands of iterations); texts and tab widths are concrete per harness instance in layers (1) and (3) (string replacement on symbolic content allocates strings of symbolic size); in layer (2) the operation order and the tab widths are symbolic, the texts come from a table; set_message / set_prefix are performed as ProgressBar does (TabExpandedString::new(text, state.tab_width))
 #[cfg(kani)]
 mod verif_c16_state {
     use super::verif_rig_state::*;
@@ -34,6 +34,7 @@ mod verif_c16_state {
     // @bounds TabExpandedString "a\tb" created with width 8 then set to width 2: expanded() == "a  b" (one expansion per harness: OnceLock::get_or_init is expensive under CBMC)
     #[kani::proof]
     #[kani::unwind(12)]
+    //@STUBS repeat replacetab
     fn c16_tab_string_reexpands() {
         let mut t = TabExpandedString::new("a\tb".into(), 8);
         t.set_tab_width(2);
@@ -45,6 +46,7 @@ mod verif_c16_state {
     // @bounds TabExpandedString "a\tb" expanded at width 3 ("a   b"), then set to width 0: expanded() == "ab" (the cached expansion is dropped); a text without tabs is returned as is
     #[kani::proof]
     #[kani::unwind(12)]
+    //@STUBS repeat replacetab
     fn c16_tab_string_cache_invalidated() {
         let mut t = TabExpandedString::new("a\tb".into(), 3);
         assert!(t.expanded().len() == 5);
